@@ -152,7 +152,8 @@ Spread(tags) ==
     ELSE IF Len(tags) = 1 THEN tags
     ELSE <<tags[1]>> \o GapItems(IF tags[2].name = probe THEN pgap ELSE gap) \o Spread(Tail(tags))
 
-Layout(tags) == [x \in 1..pre |-> NL] \o Spread(tags) \o <<NL>>
+\* (text after the last tag puts top-level content on the line of a closing tag)
+Layout(tags) == [x \in 1..pre |-> NL] \o Spread(tags) \o <<TXT, NL>>
 
 \* the auxiliary parent of a childblock: declares the block, nothing else
 AuxTpls(ws) ==
